@@ -2,7 +2,8 @@
 
 Reference-model differential monitor + invariants at hooks.
 
-* structural tier: generated generic-IR modules (test dialect, ops with trait combinations defined by this check,
+* structural tier: generated generic-IR modules (test dialect, ops of an unregistered dialect incl. unregistered
+  last ops with successors, ops with trait combinations defined by this check,
   scf.if/for/while with opaque conditions) with multi-block regions, unreachable blocks, dead use-def cycles across
   blocks, block-argument cycles, nested regions in live and dead parents, unused effectful results, symbols and
   recursive-effect ops. Every op carries a unique `id` attribute; the set of ids (and the number of blocks of every
@@ -106,6 +107,10 @@ def _defs():
         "c13.read_write": mk("c13.read_write", MemoryReadEffect(), MemoryWriteEffect()),
         "c13.read_alloc": mk("c13.read_alloc", MemoryReadEffect(), OwnAlloc()),
     }
+    from xdsl.dialects.builtin import UnregisteredOp
+    # ops of an unregistered dialect (op.name == "builtin.unregistered"): nothing known about them
+    _D["unreg.op"] = UnregisteredOp.with_name("c13u.op")
+    _D["unreg.br"] = UnregisteredOp.with_name("c13u.br")
     from xdsl.dialects import test
     _D.update({"test.pureop": test.TestPureOp, "test.op_with_memread": test.TestReadOp,
                "test.op_with_memwrite": test.TestWriteOp, "test.op": test.TestOp, "test.termop": test.TestTermOp,
@@ -117,9 +122,9 @@ def _defs():
 GENERIC = [("test.pureop", 24), ("test.op_with_memread", 8), ("test.op_with_memwrite", 14), ("test.op", 12),
            ("test.op_with_symbol", 2), ("c13.sym_pure", 3), ("c13.rec", 7), ("c13.rec_read", 2), ("c13.rec_write", 1),
            ("c13.alloc_own", 4), ("c13.alloc_other", 2), ("c13.free", 2), ("c13.read_write", 2), ("c13.read_alloc", 2),
-           ("scf.if", 5), ("scf.for", 3), ("scf.while", 2)]
+           ("scf.if", 5), ("scf.for", 3), ("scf.while", 2), ("unreg.op", 5)]
 PURELIKE = ("test.pureop", "test.op_with_memread", "c13.alloc_own", "c13.read_alloc", "c13.rec")
-REWIRABLE = ("test.pureop", "test.op_with_memread", "test.op_with_memwrite", "test.op", "c13.rec", "c13.rec_read",
+REWIRABLE = ("builtin.unregistered", "test.pureop", "test.op_with_memread", "test.op_with_memwrite", "test.op", "c13.rec", "c13.rec_read",
              "c13.alloc_own", "c13.read_alloc", "c13.read_write", "c13.free", "c13.sym_pure")
 
 
@@ -160,13 +165,15 @@ class SGen:
         self.fill(blk, pool, 0, self.rng.choice([2, 3, 5, 7, 9]))
         return m
 
-    def fill(self, block, pool, depth, nops):
+    def fill(self, block, pool, depth, nops, ban=()):
         for _ in range(nops):
-            self.one(block, pool, depth)
+            self.one(block, pool, depth, ban)
 
-    def one(self, block, pool, depth):
+    def one(self, block, pool, depth, ban=()):
         rng = self.rng
         name = rng.choices(self.names, self.weights)[0]
+        if name in ban:
+            name = "test.op"
         if name.startswith("scf.") and depth >= 2:
             name = "test.pureop"
         if name == "scf.if":
@@ -225,7 +232,7 @@ class SGen:
             self.fill(b, pool, depth, rng.choice([0, 1, 2, 3, 4]))
             vals_of[i] = pool[before:]
             if term[i]:
-                tname = rng.choice(["test.termop", "test.termop", "c13.term_pure"])
+                tname = rng.choice(["test.termop", "test.termop", "c13.term_pure", "unreg.br"])
                 operands = [rng.choice(pool) for _ in range(rng.choice([0, 1, 1, 2]))] if pool else []
                 t = self.tag(self.D[tname].create(operands=operands, successors=[blocks[k] for k in succ[i]]))
                 b.add_op(t)
@@ -283,7 +290,10 @@ class SGen:
         inits = [self.pick(pool, self.i32, block) for _ in range(k)]
         b = Block(arg_types=[self.index] + [self.i32] * k)
         inner = list(pool) + list(b.args)
-        self.fill(b, inner, depth + 1, rng.choice([0, 1, 2, 4]))
+        # no unregistered op DIRECTLY in an scf.for body: scf's RehoistConstInLoops canonicalization asks
+        # has_trait(ConstantLike) with value_if_unregistered=True and hoists such ops out of the loop (a defect of
+        # that pattern, not of DCE; it would make canonicalize legitimately delete the emptied loop afterwards)
+        self.fill(b, inner, depth + 1, rng.choice([0, 1, 2, 4]), ban=("unreg.op",))
         ys = [self.pick(inner, self.i32, b) for _ in range(k)]
         b.add_op(self.tag(self.scf.YieldOp.create(operands=ys)))
         op = self.tag(self.scf.ForOp.create(operands=[lb, ub, st] + inits, result_types=[self.i32] * k,
@@ -824,6 +834,9 @@ def work(job):
             bump("struct_modules_where_precise_beats_iterated", int(R.precise_survivors(snap) != want))
             bump("struct_ops_generated", len(snap.nodes))
             bump("struct_ops_reference_removes", len(snap.nodes) - len(want))
+            nu = R.regions_needing_unregistered_edges(snap)
+            bump("struct_modules_with_block_reachable_only_through_unregistered_terminator", int(nu > 0))
+            bump("struct_unregistered_ops_generated", sum(1 for n in snap.nodes if n.name == "builtin.unregistered"))
             bump("struct_modules_with_unreachable_block",
                  int(any(not b.reach for n in snap.nodes for reg in n.regions for b in reg)))
             triv = set(snap.by_id) - R.trivially_removable(snap)
@@ -1031,7 +1044,8 @@ def finish(agg, tier):
             "hook_would_be_trivially_dead_calls": 100000, "hook_is_trivially_dead_true": 10000,
             "hook_region_dce_calls": 1500, "hook_propagate_op_liveness_calls": 100000, "hook_delete_dead_calls": 8000,
             "struct_modules_with_unreachable_block": 600, "struct_modules_where_liveness_beats_trivial": 500,
-            "struct_modules_needing_more_than_one_round": 100, "exec_programs_with_unreachable_block": 30,
+            "struct_modules_needing_more_than_one_round": 100,
+            "struct_modules_with_block_reachable_only_through_unregistered_terminator": 150, "exec_programs_with_unreachable_block": 30,
             "nontrivial_cases": 800}
     for k, n in need.items():
         if c.get(k, 0) < n * scale:
